@@ -5,7 +5,7 @@ import shutil
 import tempfile
 from fractions import Fraction
 
-from .. import coqrun, py2gallina as pg
+from .. import coqrun, py2gallina as pg, pynorm
 from ..core import Corr, Untranslatable, Violation
 
 ID = "C16"
@@ -88,10 +88,12 @@ def _ops(stmts, tr, path, defs):
 def generate(ctx):
     path = ctx.src("direct/engine.py")
     tree, _ = pg.parse_file(path)
-    fn = pg.find_def(tree, "Engine.training_loop", path)
+    # helper methods extracted from the loop body, named aliases / conditions and guard-`continue`s are undone first
+    # (vlib/pynorm.py), so that these routine edits do not change the statement list that is translated
+    fn = pynorm.normalize(pg.find_def(tree, "Engine.training_loop", path), pg.find_def(tree, "Engine", path), loop_var="parameter")
     loop = None
     for node in fn.body:
-        if isinstance(node, ast.For) and ast.unparse(node.iter).startswith("zip(data_loader, range(start_iter, total_iter))"):
+        if isinstance(node, ast.For) and ast.unparse(node.iter) in ("zip(data_loader, range(start_iter, total_iter))", "zip(data_loader, range(start_iter, self.cfg.training.num_iterations))"):
             loop = node
     if loop is None:
         raise Untranslatable("training_loop: main loop `for data, iter_idx in zip(data_loader, range(start_iter, total_iter))` not found", fn.lineno, path)
